@@ -49,7 +49,8 @@ theorem hb_27 (mt v : Nat) : Spec.headBytes mt 27 v =
 
 /-- equality of two bytes, through `toNat` -/
 local macro "u8eq" : tactic => `(tactic| (apply UInt8.toNat_inj.mp; (simp [C.toU8, UInt8.toNat_add, UInt8.toNat_mul,
-  Nat.shiftRight_eq_div_pow, Nat.shiftLeft_eq, UInt16.toNat_div, UInt32.toNat_div, UInt64.toNat_div] <;> omega)))
+  Nat.shiftRight_eq_div_pow, Nat.shiftLeft_eq, UInt16.toNat_div, UInt32.toNat_div, UInt64.toNat_div,
+  UInt16.toNat_and, UInt32.toNat_and, UInt64.toNat_and] <;> bits_to_arith <;> omega)))
 
 /-- the uniform end of every encoder lemma: all `if`s split, guards compared as naturals, stores compared one by one -/
 local macro "enc_fin" : tactic => `(tactic| (
